@@ -118,7 +118,10 @@ def expand_source_SCCs(
             if len(source_scc_diagrams) == 0:
                 if sd.config["debug"]:
                     print(f"[{node_id}] > No source SCCs found. Node is a fixed-point.")
-                assert len(sd.node_successors(node_id, compute=True)) == 0
+                # The expansion must not be a part of the assertion, otherwise
+                # it is skipped when assertions are disabled (`python -O`).
+                fixed_point_successors = sd.node_successors(node_id, compute=True)
+                assert len(fixed_point_successors) == 0
                 continue
 
             # If there is only one source SCC, we can do a normal expansion to get to the next level,
